@@ -62,6 +62,18 @@ def run(rep, tier, seed, b):
         ops = o1 + [['dec', c['selfies'], False, False]] + ([['enc', c['smiles'], True, False]] if rng.random() < 0.5 else []) + o2
         fin = [['dec', c['selfies'], False, rng.random() < 0.3], ['enc', c['smiles'], True, False], ['dec', c['selfies'], False, False], ['dec', c['selfies'], False, False]]
         items.append((ops, fin, ['0', '7']))
+    # legacy spellings of one atom with different bond prefixes, earlier in the process and again now (a memo in the
+    # compatibility layer must be keyed by everything the answer depends on)
+    legacy = ['N+expl', 'C@@Hexpl', 'C@Hexpl', 'Cexpl', 'O-expl', 'S+expl', 'Fe++expl', 'NHexpl', '13Cexpl', 'Seexpl', 'Clexpl', 'Siexpl', 'CH2expl', 'P+expl', 'B-expl', 'NH3+expl']
+    for _ in range(60 if tier == 'quick' else 1500):
+        a = rng.choice(legacy)
+        p1, p2 = rng.sample(['', '=', '#', '/', '\\'], 2)
+        x1 = '[C][%s%s][C]' % (p1, a)
+        x2 = rng.choice(['[C][%s%s][C]', '[C][C][%s%s]', '[O][%s%s][Branch1_1][C][F][C]', '[%s%s][C]']) % (p2, a)
+        both = '[C][%s%s][C][%s%s][C]' % (p1, a, p2, a)
+        ops = [['dec', x1, True, False]] + ([['dec', both, True, False]] if rng.random() < 0.3 else [])
+        fin = [['dec', x2, True, rng.random() < 0.3], ['dec', both, True, False], ['dec', x1, True, False], ['dec', x2, True, False], ['dec', x2, True, False]]
+        items.append((ops, fin, ['0', '7']))
     res = core.pmap('p_c11', 'work', items, chunk=25)
     for (ops, fin, seeds), (runs, mo, ref) in zip(items, res):
         rep.evaluations += 1
@@ -110,7 +122,7 @@ def run(rep, tier, seed, b):
     rep.rule = ('random histories of 3-14 calls (preset / custom / invalid tables, getters, caller mutations of returned and passed objects, earlier encodes and decodes '
                 'that fill the caches) ending in 2-4 translation calls (the last one repeated); each replayed in fresh interpreters under %d hash seeds, compared with the model, '
                 'with a fresh interpreter set only to the final table, and (strict=False encodes) with a pristine interpreter; plus targeted histories: hypervalent molecules across presets, '
-                'and atom symbols whose explicit H count is refused under one table and fits the next (both directions). '
+                'atom symbols whose explicit H count is refused under one table and fits the next (both directions), and legacy [..expl] spellings of one atom decoded with different bond prefixes earlier and now. '
                 'non-trivial = distinct history with >= 4 state-relevant operations' % (2 if tier == 'quick' else 3))
 
 
